@@ -561,6 +561,13 @@ def cases(draw, forced=None):
     xrefstm = None
     if xref == "stream":
         xrefstm = {"n": num["xrefstm"][0], "enc": info_e["xref_data"], "plain": info_p["xref_data"]}
+    if xref == "table" and not objstms and draw(st.integers(0, 5)) == 0:
+        # the encrypted file's startxref offset is damaged: the objects are found by scanning the body (C02), and
+        # decryption must work all the same
+        i = pdf.rindex(b"startxref")
+        j = pdf.index(b"%%EOF", i)
+        pdf = pdf[:i] + b"startxref\n0\n" + pdf[j:]
+        classes.append("startxref-damaged")
     # ---- expectations
     explist = []
     lens_plain = {}
